@@ -1400,7 +1400,7 @@ bool definition_extract(mmd_engine * e, token ** remainder) {
 			// Grab title, if present
 			temp = *remainder;
 
-			title = token_chain_accept_multiple(remainder, 2, PAIR_QUOTE_DOUBLE, PAIR_QUOTE_SINGLE);
+			title = token_chain_accept_multiple(remainder, 3, PAIR_QUOTE_DOUBLE, PAIR_QUOTE_SINGLE, PAIR_PAREN);
 
 			if (!title) {
 				// See if there's a title on next line
@@ -1408,7 +1408,7 @@ bool definition_extract(mmd_engine * e, token ** remainder) {
 				token_chain_accept_multiple(remainder, 2, TEXT_NL, TEXT_LINEBREAK);
 				whitespace_accept(remainder);
 
-				title = token_chain_accept_multiple(remainder, 2, PAIR_QUOTE_DOUBLE, PAIR_QUOTE_SINGLE);
+				title = token_chain_accept_multiple(remainder, 3, PAIR_QUOTE_DOUBLE, PAIR_QUOTE_SINGLE, PAIR_PAREN);
 
 				if (!title) {
 					*remainder = temp;
